@@ -381,6 +381,16 @@ def run(ctx: Context) -> None:
     r3(ctx, sm)
     r4(ctx)
     r5(ctx, sites)
+    # the key is compared as SERIALISED text: every path that builds a call must serialise its arguments alike (C15/R7)
+    from . import c15
+
+    ctx.rule("R6", "same call, same key text: all argument serialisation sites of the call / task modules use the task's one policy (shared with C15/R7)")
+    sub = Context("C15", ctx.repo, ctx.tier, ctx.seed)
+    sub._resolver = ctx._resolver
+    c15.r7(sub)
+    for i in sub.instances:
+        ctx.add("R6", i.key.split("/", 2)[2], i.ok, i.where, i.detail)
+    ctx.floor("R6", "argument serialisation sites", ctx.count("R6"), 3)
     ctx.exhaustive = True
     ctx.not_decided += [
         "'different keys never block one another' beyond R5 (equality of serialised values is C15)",
